@@ -141,6 +141,8 @@ struct Ctx
     bool a_blocked_in_frame = false;
     Camera* other = nullptr;       // a second camera of the same driver: what happens there must not show on the first
     bool other_running = false, other_trigger = false;
+    int other_triggers = 0, other_deliveries = 0; // in its current run
+    int64_t other_last_id = -1;
     int run_fibers_lo = 0, run_fibers_hi = 0; // fibers created by the latest camera_start of the first camera
     size_t a_runs_at_call = 0;     // number of runs begun when caller A entered its current frame call
     bool a_stale_failure = false;  // a frame call of A that began before the latest start has failed (see c18_fail)
@@ -551,11 +553,15 @@ do_other(Ctx& x, uint8_t a)
                 x.c.trace("B: second camera: SET 4x3 u8 trigger=%u, START", p.input_triggers.frame_start.enable);
                 if (camera_set(x.other, &p) == Device_Ok && camera_start(x.other) == Device_Ok)
                     x.other_running = true;
+                x.other_triggers = x.other_deliveries = 0;
+                x.other_last_id = -1;
                 break;
             }
             // fallthrough: already running
         case 1:
             x.c.trace("B: second camera: TRIGGER");
+            if (x.other_running)
+                x.other_triggers++;
             camera_execute_trigger(x.other);
             if (first_live && x.other_running)
                 x.c.cls(CL_OTHER_TRIGGERED);
@@ -575,12 +581,29 @@ do_other(Ctx& x, uint8_t a)
                 size_t nb = sizeof buf;
                 ImageInfo info;
                 memset(&info, 0, sizeof info);
-                if (x.other_trigger)
+                const uint64_t SENT = 0xfeedfacecafebeefull;
+                info.hardware_frame_id = SENT;
+                if (x.other_trigger) {
+                    x.other_triggers++;
                     camera_execute_trigger(x.other);
+                }
                 DeviceStatusCode r = camera_get_frame(x.other, buf, &nb, &info);
-                x.c.trace("B: second camera: %sFRAME -> %s", x.other_trigger ? "TRIGGER, " : "", r == Device_Ok ? "Ok" : "Err");
+                x.c.trace("B: second camera: %sFRAME -> %s id=%lld", x.other_trigger ? "TRIGGER, " : "", r == Device_Ok ? "Ok" : "Err",
+                          info.hardware_frame_id == SENT ? -1LL : (long long)info.hardware_frame_id);
                 if (r != Device_Ok)
                     x.other_running = false; // the HAL has stopped it
+                else if (info.hardware_frame_id != SENT) {
+                    // the same rules hold for the second camera (only caller B uses it: calls do not overlap)
+                    int64_t id = (int64_t)info.hardware_frame_id;
+                    x.other_deliveries++;
+                    if (id <= x.other_last_id)
+                        C18_FAIL(x, "id-not-increasing", "second-camera", "second camera: frame id %lld delivered after id %lld", (long long)id, (long long)x.other_last_id);
+                    else if (x.other_trigger && (x.other_deliveries > x.other_triggers || id >= x.other_triggers))
+                        C18_FAIL(x, "more-frames-than-triggers", "second-camera", "second camera: frame #%d with id %lld delivered but only %d triggers issued in its run",
+                                 x.other_deliveries, (long long)id, x.other_triggers);
+                    x.other_last_id = id;
+                } else if (x.other_trigger)
+                    C18_FAIL(x, "lockstep-no-frame", "second-camera", "second camera: a trigger followed by a frame call delivered no frame while it was running");
             }
             break;
     }
